@@ -56,6 +56,10 @@ fn materialise(dir: &Path, case: &Case, now: i128) {
     if case.foreign & 1 != 0 {
         // the most evictable thing in the directory
         world::plant(&dir.join(".app"), b"application state", 0o644, now - 3 * day - 120 * SEC, now - 3 * day);
+        // and one whose name is not valid UTF-8 (Latin-1 e-acute)
+        use std::os::unix::ffi::OsStrExt;
+        let odd = std::ffi::OsStr::from_bytes(b".caf\xe9_state");
+        world::plant(&dir.join(odd), b"application state", 0o644, now - 4 * day - 120 * SEC, now - 4 * day);
     }
     if case.foreign & 2 != 0 {
         world::plant(&dir.join(".app2"), b"fresh application state", 0o600, now - 10 * SEC, now - 20 * SEC);
